@@ -2,17 +2,19 @@ package main
 
 import (
 	"fmt"
+	_ "golang.org/x/tools/go/callgraph/cha"
+	_ "golang.org/x/tools/go/callgraph/vta"
 	"golang.org/x/tools/go/packages"
 	"golang.org/x/tools/go/ssa"
 	"golang.org/x/tools/go/ssa/ssautil"
-	_ "golang.org/x/tools/go/callgraph/vta"
-	_ "golang.org/x/tools/go/callgraph/cha"
 )
 
 func main() {
 	cfg := &packages.Config{Mode: packages.LoadAllSyntax, Dir: "/repo"}
 	pkgs, err := packages.Load(cfg, "./...")
-	if err != nil { panic(err) }
+	if err != nil {
+		panic(err)
+	}
 	prog, _ := ssautil.AllPackages(pkgs, ssa.BuilderMode(0))
 	prog.Build()
 	fmt.Println(len(pkgs))
